@@ -328,3 +328,55 @@ def hex_grid_state(ctx):
     fresh = HexGrid(np.array(grid.points).copy(), [list(q) for q in HEXES])
     for k in range(2):
         ctx.prove(f"cell{k}/same-as-fresh-cell", ctx.eq(grid.cells[k].quality, fresh.cells[k].quality, tol=1e-6))
+
+
+# ------------------------------------------------------------------------------ whole grids (cells find their own neighbours)
+def _rot(rng):
+    q = np.array([rng.gauss(0, 1) for _ in range(4)])
+    a_, b_, c_, d_ = q / np.linalg.norm(q)
+    return np.array([[a_ * a_ + b_ * b_ - c_ * c_ - d_ * d_, 2 * (b_ * c_ - a_ * d_), 2 * (b_ * d_ + a_ * c_)],
+                     [2 * (b_ * c_ + a_ * d_), a_ * a_ - b_ * b_ + c_ * c_ - d_ * d_, 2 * (c_ * d_ - a_ * b_)],
+                     [2 * (b_ * d_ - a_ * c_), 2 * (c_ * d_ + a_ * b_), a_ * a_ - b_ * b_ - c_ * c_ + d_ * d_]])
+
+
+@proof("C14", "bounded/grid-quality/rigid-motion-and-renumbering", cases=["hex-grid", "quad-grid-slender", "hex-grid-from-mesh-small-blocks"], level="B", samples=10,
+       functions=["classy_blocks.optimize.grid:GridBase._bind_cell_neighbours", "classy_blocks.optimize.grid:HexGrid.from_mesh", "classy_blocks.optimize.grid:GridBase.quality",
+                  "classy_blocks.optimize.cell:CellBase.add_neighbour"],
+       note="bounded stand-in: the summed quality of a grid whose cells find their own neighbours is the same after a random rigid motion and "
+            "after renumbering every cell in its own one of the valid ways (24 for a hexahedron, 4 for a quadrilateral)")
+def grid_quality(ctx):
+    from contracts.spec import assemblies as A_
+
+    rng = ctx.rng
+    R, t = _rot(rng), np.array([rng.uniform(-10, 10) for _ in range(3)])
+    if ctx.case == "quad-grid-slender":
+        n = 3
+        P = np.array([[6.0 * i, float(j), 0.0] for j in range(2) for i in range(n + 1)]) + np.array([[rng.uniform(-0.2, 0.2), rng.uniform(-0.1, 0.1), 0.0] for _ in range(2 * (n + 1))])
+        cells = [[i, i + 1, i + n + 2, i + n + 1] for i in range(n)]
+        make = lambda pts, cs: QuadGrid(np.array(pts, dtype=float), [list(c) for c in cs])
+        renumber = lambda cs: [[c[(k + 1 + 2 * (i % 2)) % 4] for k in range(4)] for i, c in enumerate(cs)]
+    else:
+        idx = lambda i, j, k: (k * 3 + j) * 3 + i
+        size = 0.05 if ctx.case.endswith("small-blocks") else 1.0
+        P = np.array([[float(i), float(j), float(k)] for k in range(3) for j in range(3) for i in range(3)]) * size
+        P += np.array([[rng.uniform(-0.15, 0.15) for _ in range(3)] for _ in range(27)]) * size
+        cells = [[idx(i, j, k), idx(i + 1, j, k), idx(i + 1, j + 1, k), idx(i, j + 1, k), idx(i, j, k + 1), idx(i + 1, j, k + 1), idx(i + 1, j + 1, k + 1), idx(i, j + 1, k + 1)]
+                 for k in range(2) for j in range(2) for i in range(2)]
+        if ctx.case == "hex-grid":
+            make = lambda pts, cs: HexGrid(np.array(pts, dtype=float), [list(c) for c in cs])
+        else:
+            import classy_blocks as cb
+            from classy_blocks.mesh import Mesh
+
+            def make(pts, cs):
+                mesh = Mesh()
+                for c in cs:
+                    mesh.add(cb.Loft(cb.Face([pts[i] for i in c[:4]]), cb.Face([pts[i] for i in c[4:]])))
+                mesh.assemble(skip_edges=True)
+                return HexGrid.from_mesh(mesh)
+        renumber = lambda cs: [[c[i] for i in A_.ROT[(5 * k + 7) % 24]] for k, c in enumerate(cs)]
+    q0 = make(P, cells).quality
+    q_moved = make(P @ R.T + t, cells).quality
+    q_renumbered = make(P, renumber(cells)).quality
+    ctx.prove("same-quality-after-a-rigid-motion", abs(q_moved - q0) <= 1e-8 * max(1.0, abs(q0)), q0=q0, q=q_moved)
+    ctx.prove("same-quality-after-renumbering-every-cell", abs(q_renumbered - q0) <= 1e-8 * max(1.0, abs(q0)), q0=q0, q=q_renumbered)
